@@ -129,6 +129,19 @@ func unmarshalPrimitive(dec *msgpack.Decoder, ty cty.Type, path cty.Path) (cty.V
 	}
 }
 
+// maxPreallocLen is the largest number of elements we reserve space for on
+// the say-so of a length header alone. A header is only a few bytes long but
+// can announce billions of elements, so anything beyond this grows as the
+// elements are actually decoded.
+const maxPreallocLen = 1024
+
+func preallocLen(length int) int {
+	if length > maxPreallocLen {
+		return maxPreallocLen
+	}
+	return length
+}
+
 func unmarshalList(dec *msgpack.Decoder, ety cty.Type, path cty.Path) (cty.Value, error) {
 	length, err := dec.DecodeArrayLen()
 	if err != nil {
@@ -142,7 +155,7 @@ func unmarshalList(dec *msgpack.Decoder, ety cty.Type, path cty.Path) (cty.Value
 		return cty.ListValEmpty(ety), nil
 	}
 
-	vals := make([]cty.Value, 0, length)
+	vals := make([]cty.Value, 0, preallocLen(length))
 	path = append(path, nil)
 	for i := 0; i < length; i++ {
 		path[len(path)-1] = cty.IndexStep{
@@ -173,7 +186,7 @@ func unmarshalSet(dec *msgpack.Decoder, ety cty.Type, path cty.Path) (cty.Value,
 		return cty.SetValEmpty(ety), nil
 	}
 
-	vals := make([]cty.Value, 0, length)
+	vals := make([]cty.Value, 0, preallocLen(length))
 	path = append(path, nil)
 	for i := 0; i < length; i++ {
 		path[len(path)-1] = cty.IndexStep{
@@ -204,7 +217,7 @@ func unmarshalMap(dec *msgpack.Decoder, ety cty.Type, path cty.Path) (cty.Value,
 		return cty.MapValEmpty(ety), nil
 	}
 
-	vals := make(map[string]cty.Value, length)
+	vals := make(map[string]cty.Value, preallocLen(length))
 	path = append(path, nil)
 	for i := 0; i < length; i++ {
 		key, err := dec.DecodeString()
